@@ -429,12 +429,16 @@ def check_main(args):
                     if not r['ok']:
                         wit_bad += 1
                         wit_notes.append('%s: %s' % (w['instance'], r['error']))
+                        if getattr(_INSTS[w['instance']], 'selftest', False):
+                            harness_errors.append('%s: self-test could not run concretely: %s' % (w['instance'], r['error']))
                         continue
                     failing = [n for n, (s, l) in r['obligations'].items() if not l]
                     same_obs = _close([v for _, v in w['observed']], [v for _, v in r['observed']])
                     if failing and (w['instance'], failing[0]) not in fail_groups:
                         wit_bad += 1
                         wit_notes.append('%s: obligations %s fail concretely on a path the solver closed' % (w['instance'], failing[:3]))
+                        if getattr(_INSTS[w['instance']], 'selftest', False):
+                            harness_errors.append('%s: self-test failed in the concrete run: %s' % (w['instance'], failing[:3]))
                     elif not same_obs:
                         wit_bad += 1
                         wit_notes.append('%s: observed outputs differ: sym %s vs real %s' % (w['instance'], str(w['observed'])[:200], str(r['observed'])[:200]))
